@@ -22,6 +22,7 @@ import (
 	"bufio"
 	"encoding/hex"
 	"fmt"
+	"github.com/ryogrid/SamehadaDB/lib/container/hash"
 	"github.com/ryogrid/SamehadaDB/lib/storage/buffer"
 	"math"
 	"os"
@@ -214,6 +215,18 @@ func runDB(args []string, in *bufio.Scanner, out *bufio.Writer) {
 				}
 				s.txns = map[string]*access.Transaction{}
 				return "ok"
+			case "hashcoll":
+				// two different integers whose join-hash (container/hash.HashValue, murmur3 truncated to 32 bits) is the same
+				seen := map[uint32]int32{}
+				for i := int32(0); i < 5000000; i++ {
+					v := types.NewInteger(i)
+					h := hash.HashValue(&v)
+					if j, ok := seen[h]; ok {
+						return fmt.Sprintf("ok:%d,%d", j, i)
+					}
+					seen[h] = i
+				}
+				return "err:none"
 			case "contract":
 				// breaches of the pool users' contract recorded since the last call (hook H5)
 				return "ok:" + strings.Join(buffer.VerifContractBreachesTake(), "|")
